@@ -370,6 +370,11 @@ def check(pid, tier, seed):
                     "seed": seed, "n": n, "output": out[-6000:]}), "no-failing-input-found"))
             else:
                 cs, st = read_cases(tsv)
+                if "ABORT" in st:
+                    violations.append((write_replay(pid, "harness_abort_" + op, {
+                        "kind": "correspondence", "what": "the harness operation '%s' unwound outside a handler call after %d cases "
+                        "(a storage accessor or the protocol object panicked): %s" % (op, len(cs), st["ABORT"]),
+                        "seed": seed, "n": n, "last_case": (cs[-1].descr if cs else None)}), "no-failing-input-found"))
                 for c in cs:
                     c.op, c.run_module, c.n = op, run_module, n
                     c.id = op + ":" + c.id
